@@ -425,8 +425,11 @@ static void analyseAndGenerate(const libcellml::ModelPtr &m, const char *a, cons
     }
 }
 
+static unsigned g_seconds = 20; // alarm per parser mode of a pipe case
+
 static void pipelineOne(const std::string &text, const std::string &base, bool strict)
 {
+    alarm(g_seconds); // the time limit applies to the strict and to the permissive run separately
     tok(std::string(" [") + (strict ? "s" : "p") + "]");
     stage("P");
     auto parser = libcellml::Parser::create(strict);
@@ -739,6 +742,7 @@ int main(int argc, char **argv)
     if (getenv("C01_SECONDS") != nullptr) {
         seconds = unsigned(atoi(getenv("C01_SECONDS")));
     }
+    g_seconds = seconds;
     warmUp();
     if (mode == "math" || mode == "pow") {
         runBatch(cases, fn, seconds, errPath);
